@@ -17,7 +17,8 @@ from harness.core import compare_batch, err_name, run_oracle_cases
 
 PROP = 'C17'
 PROOF_MODULES = ['Ladybug.Props.C17']
-GREP_MODULES = ['Ladybug.Model.Plot', 'Ladybug.Proofs.C17Lemmas', 'Ladybug.Drv.C17', 'Ladybug.Model.AP',
+GREP_MODULES = ['Ladybug.Model.Plot', 'Ladybug.Proofs.C17Lemmas', 'Ladybug.Proofs.C17Hist', 'Ladybug.Proofs.C17Bars',
+                'Ladybug.Proofs.C17Rev', 'Ladybug.Drv.C17', 'Ladybug.Model.AP',
                 'Ladybug.Model.Cal', 'Ladybug.Py', 'Ladybug.DrvCore']
 RULE = ('correspondence: hourly plots over analysis periods (partial, year-wrapping, hour windows incl. overnight '
         'and st>0..23, timesteps 1/2/3/4/6, leap) x data (continuous | whole windowed period | sparse subsets '
@@ -42,30 +43,31 @@ TRUSTED_BASE = [
     'theorems assume the data date-times are a chronological sub-list of the period (what validation establishes)',
 ]
 ASSUMPTIONS = [
-    'the three C17 fix patches are applied to the checked tree (on a tree without them the check reports the '
-    'violations they repair)',
+    'the three C17 fix commits (259e666, 9d435cd, 0d57465) are in the checked tree',
     'psychrometric chart: SI only in the model (IP temperature categories are float-accumulated; oracle only)',
 ]
-LEVEL_TEXT = ('Machine-checked Lean 4 theorems (7) over an executable model of the data placement of HourlyPlot, '
-              'histogram/histogram_circular, WindRose, MonthlyChart bars and PsychrometricChart cells. Proved for all '
-              'inputs: the hourly mesh of a non-wrapping period (any hour window incl. overnight, all 12 timesteps, '
-              'leap or not, continuous/windowed/sparse data, y axis not reversed) has one face per value and the face '
-              'of a value lies in the column of its day and the row of its time of day; every face carries the colour '
-              'computed from its own value (both orientations); a circular-histogram sample lands in one bin only, '
-              'which contains it (wrapping bin: both arcs); bar heights are affine in the value. The model is compared '
+LEVEL_TEXT = ('Machine-checked Lean 4 theorems (19) over an executable model of the data placement of HourlyPlot, '
+              'histogram/histogram_circular, WindRose, MonthlyChart bars and PsychrometricChart cells, for all inputs '
+              'of each clause: the hourly mesh of a non-wrapping period (any hour window incl. overnight, all 12 '
+              'timesteps, leap or not; continuous, windowed and sparse data; y axis normal and reversed) has one face '
+              'per value and the face of a value lies in the column of its day and the (mirrored) row of its time of '
+              'day, carrying the colour computed from its own value; histogram lists partition the input by the '
+              'half-open edges and their sizes add up; every wind-rose sample is counted once (sector counts + calms = '
+              'samples, for every direction count) and the prevailing direction is the arg-max set; bar heights are '
+              'affine in the value and monthly/daily bars stand in the column of their month (any start day); '
+              'psychrometric cells count exactly their own hours and sum to the on-chart hours. The model is compared '
               'with the real classes (mesh faces, centroids, values, bins, bar vertices, cell counts) on '
-              'boundary-biased generated inputs on every run, and the whole statement (incl. reverse_y, wrapping '
-              'periods, wind-rose sums and prevailing direction, histogram partition, bar columns, psychrometric '
-              'counts) is evaluated on the real objects by an independent oracle.')
+              'boundary-biased generated inputs on every run, and the whole statement is evaluated on the real objects '
+              'by an independent oracle.')
 LEVEL_NOTE = ('Trusted: Lean kernel; axioms propext/Classical.choice/Quot.sound only; the correspondence run '
               '(agreement on generated inputs only); ladybug_geometry mesh conventions; exact-rational model of float '
-              'formulas (compared within 1e-9); C04 characterisation of AnalysisPeriod.moys and the C13 validation '
-              'post-condition (data date-times are a chronological sub-list of the period). NOT proved, only compared '
-              'and oracle-checked: mirrored rows under reverse_y, year-wrapping periods, histogram partition, '
-              'wind-rose coverage/sum/prevailing arg-max, bar columns, psychrometric cell counts. The model describes '
-              'the code with fixes/C17_hourlyplot_num_y.patch, C17_hourlyplot_reverse_by_doy.patch and '
-              'C17_daily_bars_first_month.patch applied; two open findings are listed in known_findings.d/C17.json.')
-TECHNIQUE = ('Lean 4 proof (list induction, sorted-list uniqueness on the C04 characterisation of moys, omega) about '
+              'formulas (compared within 1e-9; float `d % 360.0` is outside the model); C04 characterisation of '
+              'AnalysisPeriod.moys and the C13 validation post-condition (data date-times are a chronological sub-list '
+              'of the period). NOT proved, only compared and oracle-checked: year-wrapping periods of the hourly plot, '
+              'the IP psychrometric chart, histogram_circular with hist_range=None, bar_count staying below the '
+              'horizontal bar count (hypothesis of the column theorems). Two open findings are listed in '
+              'known_findings.d/C17.json.')
+TECHNIQUE = ('Lean 4 proof (list induction, sorted-list uniqueness on the C04 characterisation of moys, omega, linarith) about '
              'a hand model tied to the plot classes by differential correspondence on mesh faces and bins')
 
 STEP_TS = (1, 2, 3, 4, 6)
